@@ -498,11 +498,11 @@ uint StringDictionaryPFC::searchPrefix(uchar **ptr, uint scanneable,
     else {
       id++;
       if ((cmp > 0) || (id > scanneable))
-        break;
+        return NORESULT;
 
       *ptr += VByte::decode(&sharedPrev, *ptr);
       if (sharedPrev < sharedCurr)
-        break;
+        return NORESULT;
       decodeNextString(ptr, sharedPrev, decoded, decLen);
     }
   }
